@@ -9,13 +9,13 @@ META = {
     # id: (technique, level text, level_note, design_ref)
     "C01": (
         "model-based history generation (reads x mutators) with a cold-reconstruction oracle: enumerated depth-1 matrix warm-set x mutator x start mesh + hypothesis histories",
-        "Generated search over read/mutate histories of a live Trimesh: a complete depth-1 matrix (warm set in {nothing, each of 50 derived values alone, everything} x 43 mutator variants incl. every matrix class, masks, in-place edits, copies x 4 start meshes; all-warm/cold columns complete in the quick tier, a seeded quarter of single-warm cells) plus a squared family of core mutators and Hypothesis histories of <=10 steps; after the history every registered value (normals, areas, mass properties, bounds, edges, adjacency, watertightness, facets, hull, ray / nearest / contains answers on fixed queries) must equal the value of a mesh freshly built from copies of the current arrays and overrides. Exploration only.",
+        "Generated search over read/mutate histories of a live Trimesh: a complete depth-1 matrix (warm set in {nothing, each of 50 derived values alone, everything} x 43 mutator variants incl. every matrix class, masks, in-place edits, copies x 4 start meshes; all-warm/cold columns complete in the quick tier, a seeded quarter of single-warm cells) plus a squared family of core mutators and Hypothesis histories of <=10 steps; after the history every registered value (normals, areas, mass properties, bounds, edges, adjacency, watertightness, facets, hull, ray / nearest / contains answers on fixed queries) must equal the value of a mesh freshly built from copies of the current arrays and overrides. Exploration only. Added after independent seeding: there-and-back edits (bit-exact inverse edit after reads) on raw / processed / copied / moved objects, an 80-face holed start mesh, skew equal-norm bases, read order varied per case, query -> edit -> query-read-first cases for the accelerated (ray / proximity) values.",
         "The cold mesh runs the same trimesh code, so this decides history-independence (the property), not correctness of each value (C03/C05/C12 do that). Matrices stay away from the 1e-8/1e-6 shortcuts; user-assigned vertex normals excluded; vertex normals after merge_vertices compared at the documented digits_norm precision.",
         "DESIGN.md section 4 C01",
     ),
     "C02": (
         "hypothesis-generated programs of numpy operations over a tracked array and its views + enumerated route x target table, oracle = hash of a fresh array with the same bytes",
-        "Generated search: programs (<=14 steps) of hash reads, view creation, 46 mutating routes and read-only operations over a TrackedArray root and every view derived from it, with hash(x)==hash_fast(x.tobytes()) checked on drawn subsets after each step and on everything at the end; a complete enumeration of route x write target (root/view/view-of-view, 20 view chains) x which members were hashed before x the 6 dtype/shape kinds trimesh stores; the same routes applied to mesh.vertices/faces, path.vertices, colour arrays with the container hash compared to a freshly built object. Does not prove absence for routes not in the table.",
+        "Generated search: programs (<=14 steps) of hash reads, view creation, 46 mutating routes and read-only operations over a TrackedArray root and every view derived from it, with hash(x)==hash_fast(x.tobytes()) checked on drawn subsets after each step and on everything at the end; a complete enumeration of route x write target (root/view/view-of-view, 20 view chains) x which members were hashed before x the 6 dtype/shape kinds trimesh stores; the same routes applied to mesh.vertices/faces, path.vertices, colour arrays with the container hash compared to a freshly built object. Does not prove absence for routes not in the table. Added after independent seeding: chained view expressions whose intermediate is garbage, failing partial writes, attribute setters (real), a kept flat iterator (known finding), array-level hash reads between edit and container hash, re-assignment of the same array through the property setter with writes through the old handle, further holders built on the same arrays.",
         "Trusts the hash function; writes through plain-ndarray escapes (.view(np.ndarray), np.asarray, memoryview) and writes into the user array a TrackedArray was created from are outside the domain (see evidence assumptions).",
         "DESIGN.md section 4 C02",
     ),
@@ -27,13 +27,13 @@ META = {
     ),
     "C08": (
         "hypothesis geometries x exporter/option grid x loader entry x transport; storage-rule oracle (float32 cast / fixed decimals / exact) compared triangle by triangle in order, independent byte decoders for STL/OFF, purity and determinism checks",
-        "Generated search: single faces, soups with all-distinct vertices, pool solids, coordinates from 1e-30 to 1e30, face / vertex colours, PLY attributes, >=65536 vertices (index width), coloured point clouds, nested instanced scenes, through stl, stl_ascii, ply (binary/ascii, normals, attributes), off, obj (option sets), glb, gltf (file dict + resolver, merge_buffers), 3mf, dae, dict, dict64, xyz and back through load / load_mesh / load_scene from a stream and from a file path with process=False; loaded.triangles[i] must equal the format's storage rule applied to source.triangles[i] for every i in order (bit-exact where the rule is a cast or lossless), counts, colours, attributes and instance placement preserved, the source hash/bytes unchanged by export and two exports identical. A complete grid covers format x option set x entry x transport x colour kind on one asymmetric mesh. Exploration only; paths and binvox are decided in C14 / C13.",
+        "Generated search: single faces, soups with all-distinct vertices, pool solids, coordinates from 1e-30 to 1e30, face / vertex colours, PLY attributes, >=65536 vertices (index width), coloured point clouds, nested instanced scenes, through stl, stl_ascii, ply (binary/ascii, normals, attributes), off, obj (option sets), glb, gltf (file dict + resolver, merge_buffers), 3mf, dae, dict, dict64, xyz and back through load / load_mesh / load_scene from a stream and from a file path with process=False; loaded.triangles[i] must equal the format's storage rule applied to source.triangles[i] for every i in order (bit-exact where the rule is a cast or lossless), counts, colours, attributes and instance placement preserved, the source hash/bytes unchanged by export and two exports identical. A complete grid covers format x option set x entry x transport x colour kind on one asymmetric mesh. Exploration only. Added after independent seeding: binvox round trips of cubic and non-cubic grids with runs around 255 and its multiples (dense / RLE / BRLE backing, both axis orders), dxf / svg / dict entity round trips of lines, arcs and circles, scenes exported to the flat formats (stl, ply) and single-instance scenes.",
         "storage rules were read from the exporters (see evidence assumptions); DAE compared at a declared relative 2e-6 because it goes through pycollada.",
         "DESIGN.md section 4 C08",
     ),
     "C09": (
         "model-based stateful generation (operation histories interpreted against a dict-of-parent reference forest), all-pairs path-product oracle after every step, plus enumeration of short structural histories",
-        "Generated histories (<=14 steps; update by matrix/quaternion/axis-angle/translation, re-parent, remove_node, base-frame change, graph[x]=M, remove_geometries, copy, edge-list round trip) applied to a real SceneGraph and to a reference forest; after every step get(to, from) for every ordered pair of live frames must equal the explicit product of current edge matrices along the path (ValueError iff disconnected), plus the group laws and structure queries (children, successors, nodes_geometry, to_flattened, to_edgelist). An enumerated family of 6-step structural histories over 3 names covers every short re-parent/remove/re-add interleaving. Exploration: no absence proof.",
+        "Generated histories (<=14 steps; update by matrix/quaternion/axis-angle/translation, re-parent, remove_node, base-frame change, graph[x]=M, remove_geometries, copy, edge-list round trip) applied to a real SceneGraph and to a reference forest; after every step get(to, from) for every ordered pair of live frames must equal the explicit product of current edge matrices along the path (ValueError iff disconnected), plus the group laws and structure queries (children, successors, nodes_geometry, to_flattened, to_edgelist). An enumerated family of 6-step structural histories over 3 names covers every short re-parent/remove/re-add interleaving. Exploration: no absence proof. Added after independent seeding: non-unit quaternions / axes, tiny relative corrections of stored edges (nudges), re-use of the caller's matrix buffer after every update.",
         "Histories stay within forests (no cycles) and query only existing frames; matrices are kept away from the documented 1e-8/1e-5 numeric shortcuts; numpy linear algebra trusted.",
         "DESIGN.md section 4 C09",
     ),
@@ -45,7 +45,7 @@ META = {
     ),
     "C04": (
         "hypothesis generators over geometry kind x matrix class x cached state x entry point; oracle = homogeneous multiply + metamorphic relations (inverse, composition, |det| volume, tensor law)",
-        "Generated search: meshes (solid/open, colours, attributes, metadata, optional centre-of-mass override), point clouds, 2D/3D paths (lines, arcs under similarities), Box/Sphere/Cylinder/Capsule/Extrusion primitives, nested instanced scenes and voxel grids are transformed by matrices of every class (rigid, similarity, mirror, negative uniform scale, anisotropic, shear, general affine, near-identity either side of the 1e-8/1e-6 shortcuts) through apply_transform/apply_scale/apply_translation with derived values read before or not; every point must move to M.p, faces reverse iff det<0, nothing else changes, M then M^-1 restores, A then B equals B.A, and for solids volume/centre of mass/normals/area/inertia follow the stated laws. Exploration only.",
+        "Generated search: meshes (solid/open, colours, attributes, metadata, optional centre-of-mass override), point clouds, 2D/3D paths (lines, arcs under similarities), Box/Sphere/Cylinder/Capsule/Extrusion primitives, nested instanced scenes and voxel grids are transformed by matrices of every class (rigid, similarity, mirror, negative uniform scale, anisotropic, shear, general affine, near-identity either side of the 1e-8/1e-6 shortcuts) through apply_transform/apply_scale/apply_translation with derived values read before or not; every point must move to M.p, faces reverse iff det<0, nothing else changes, M then M^-1 restores, A then B equals B.A, and for solids volume/centre of mass/normals/area/inertia follow the stated laws. Exploration only. Added after independent seeding: extreme-scale mirrors, drawn extra warm reads with a cold comparison of every derived value, voxel bounds / extents / volume / index maps of the moved grid.",
         "float64 matrix arithmetic trusted; tolerances derived from eps, |M|, |p| and the conditioning of the surface integrals; primitives may reject non-similarities with ValueError but must then be unchanged.",
         "DESIGN.md section 4 C04",
     ),
@@ -57,13 +57,13 @@ META = {
     ),
     "C06": (
         "hypothesis generators aimed at bit-packing limits + exhaustive enumeration of short sequences, dict/tuple grouping oracle",
-        "Generated search with an independent element-by-element oracle: Hypothesis integer/float row arrays built around the 2^15/2^20/2^31/2^63 packing limits for every column count and dtype, plus complete enumeration of blocks() over all sequences of length<=7 (quick) / <=9 (thorough) on a 3-letter alphabet x every option combination. Does not prove absence; the enumerated sub-domains are complete.",
+        "Generated search with an independent element-by-element oracle: Hypothesis integer/float row arrays built around the 2^15/2^20/2^31/2^63 packing limits for every column count and dtype, plus complete enumeration of blocks() over all sequences of length<=7 (quick) / <=9 (thorough) on a 3-letter alphabet x every option combination. Does not prove absence; the enumerated sub-domains are complete. Added after independent seeding: distinct neighbours up to 2^63, every row array in C / Fortran / transposed / strided / read-only / list form, operands of boolean_rows in their own integer dtypes.",
         "Trusts numpy, python dict/tuple equality as the definition of row equality; float rows are generated away from rounding boundaries.",
         "DESIGN.md section 4 C06",
     ),
     "C10": (
         "hypothesis-generated scenes (random frame forests, instancing, mixed geometry kinds) x operations and edit histories; explicit-placement oracle with own area / volume / moment formulas; one fixed nested scene x every operation enumerated",
-        "Generated search: scenes with a random forest of frames (rigid and similarity edges, depth<=4), meshes / point cloud / 3D path instanced 0..n times, optionally followed by graph edits, in-place edits of shared geometry, add/delete geometry with reads in between; bounds, extents, centroid, scale, triangles (+node attribution), area, volume, center_mass, moment_inertia, convex hull, dump, to_mesh are recomputed by placing a copy of every geometry at every referencing node with the world transform from our own forest model (own signed-tetrahedra integrals); copy, scaled(scalar | per axis), rezero, convert_units, apply_transform, a+b and subscene must keep (scale / move) the multiset of placed triangles and leave the source byte-identical. Exploration only.",
+        "Generated search: scenes with a random forest of frames (rigid and similarity edges, depth<=4), meshes / point cloud / 3D path instanced 0..n times, optionally followed by graph edits, in-place edits of shared geometry, add/delete geometry with reads in between; bounds, extents, centroid, scale, triangles (+node attribution), area, volume, center_mass, moment_inertia, convex hull, dump, to_mesh are recomputed by placing a copy of every geometry at every referencing node with the world transform from our own forest model (own signed-tetrahedra integrals); copy, scaled(scalar | per axis), rezero, convert_units, apply_transform, a+b and subscene must keep (scale / move) the multiset of placed triangles and leave the source byte-identical. Exploration only. Added after independent seeding: vertices-only geometry, delete / re-add, sums of three and four scenes with identical node names, twin geometries with equal content edited alike, planar paths (Path2D) instanced in and out of their plane.",
         "edge transforms are rigid or positive similarities; meshes without unreferenced vertices; scipy ConvexHull trusted for the reference hull volume.",
         "DESIGN.md section 4 C10",
     ),
@@ -105,7 +105,7 @@ META = {
     ),
     "C17": (
         "enumerated grid (geometry kind x copy method x edited side x every single edit) + hypothesis edit histories; behavioural snapshot oracle",
-        "Generated search: every geometry kind in a drawn state (Trimesh cold/warm with colour/texture/PBR visuals, attributes, nested metadata; Box/Sphere/Cylinder/Capsule/Extrusion with non-default parameters; Path2D/3D; PointCloud; nested instanced Scene; VoxelGrid of each encoding) is copied by .copy() (each keyword form), copy.copy and copy.deepcopy; the copy's snapshot (geometry, parameters, visuals, metadata, attributes, derived values) must equal the original's, copying must not change the original, and after each of a drawn sequence of in-place / API edits of one side the other side's snapshot must be unchanged. A complete grid covers kind x copy method x side x each single edit. Exploration only.",
+        "Generated search: every geometry kind in a drawn state (Trimesh cold/warm with colour/texture/PBR visuals, attributes, nested metadata; Box/Sphere/Cylinder/Capsule/Extrusion with non-default parameters; Path2D/3D; PointCloud; nested instanced Scene; VoxelGrid of each encoding) is copied by .copy() (each keyword form), copy.copy and copy.deepcopy; the copy's snapshot (geometry, parameters, visuals, metadata, attributes, derived values) must equal the original's, copying must not change the original, and after each of a drawn sequence of in-place / API edits of one side the other side's snapshot must be unchanged. A complete grid covers kind x copy method x side x each single edit. Exploration only. Added after independent seeding: unread in-place edits before the copy, in-place edits of primitive arrays, PBR materials with exact zeros, sparse grids with empty far planes, extrusion profiles that need 17 digits.",
         "Verdict is behavioural (snapshots), so sharing of read-only cached arrays is allowed; texture image buffers compared by content only.",
         "DESIGN.md section 4 C17",
     ),
@@ -123,7 +123,7 @@ META = {
     ),
     "C20": (
         "systematic fault injection over valid seed files (every truncation / strided byte, word, integer-field, chunk faults) + hypothesis byte strings, each input loaded in an isolated worker under address-space and CPU limits; outcome oracle (ordinary exception or result, CPU, peak memory, descriptor table)",
-        "Fault enumeration: seeds from the tree's own exporters (stl, stl_ascii, ply, off, obj, glb, gltf, 3mf, dae, xyz, binvox, dxf, svg, zip) and small bundled models (3dxml, xaml, ...) x truncation offsets, single-byte faults, aligned 32-bit words set to 0xFFFFFFFF/0x7FFFFFFF/0x80000000/0, ascii integers replaced by huge / negative values, chunk delete / duplicate / swap / 2000-fold repetition, splices, plus generated byte strings, through load / load_mesh / load_scene / load_path by stream and by file path in a separate process with RLIMIT_AS and a CPU timer. Outcome must be a result or an ordinary Exception within 5 s + 2 ms/byte CPU (slow cases re-run alone twice, doubled budget, before counting), peak memory growth <= 64 MiB + 2000 x input length, and no descriptor left open. The strided grid is complete for the quick tier's stride; all offsets for files <= 4 kB in the thorough tier.",
+        "Fault enumeration: seeds from the tree's own exporters (stl, stl_ascii, ply, off, obj, glb, gltf, 3mf, dae, xyz, binvox, dxf, svg, zip) and small bundled models (3dxml, xaml, ...) x truncation offsets, single-byte faults, aligned 32-bit words set to 0xFFFFFFFF/0x7FFFFFFF/0x80000000/0, ascii integers replaced by huge / negative values, chunk delete / duplicate / swap / 2000-fold repetition, splices, plus generated byte strings, through load / load_mesh / load_scene / load_path by stream and by file path in a separate process with RLIMIT_AS and a CPU timer. Outcome must be a result or an ordinary Exception within 5 s + 2 ms/byte CPU (slow cases re-run alone twice, doubled budget, before counting), peak memory growth <= 64 MiB + 2000 x input length, and no descriptor left open. The strided grid is complete for the quick tier's stride; all offsets for files <= 4 kB in the thorough tier. Added after independent seeding: pairs of word faults in the first 32 bytes, single-digit integer tokens +-1 (indices into other tables), faults applied to documents inside zip containers with the archive rebuilt, nested instanced scene seeds, a jump of the peak virtual size as a memory symptom (RLIMIT_AS = baseline + 1 GiB), and a scaling sub-check: the same relative fault in files of N and 4 N faces must keep CPU time and memory proportional.",
         "termination decided up to the CPU budget; third-party parser families (meshio, cascadio, openctm) not fuzzed; no coverage-guided fuzzing (atheris not importable in /venv; numpy / lxml parsers give no coverage signal).",
         "DESIGN.md section 4 C20",
     ),
